@@ -14,6 +14,13 @@ ACC = {"val": "e.val", "err": "e.err", "A": "e.A", "or": "e.or(99)", "val?": "e.
        "catchType": "e.catch(TypeErr){|x| 77}.A", "ignoreErr": "e.ignore(Err).A", "abandon": "e.abandon"}
 
 
+# names the Either answers itself at the pinned commit: its own interface, and what Obj / BaseObj define (the recorded deviation C13:step=name-answered-by-the-wrapper)
+EITHER_OWN = {"A", "end", "err", "err?", "fmap", "newErr", "newVal", "or", "val", "val?", "abandon", "catch", "ignore"}
+OBJ_OWN = set("B S acc all? ancestors any? append asFor? avg bro callProp case chain chunk del digest doUntil doWhile empty? exclude find first flipflop index indices items keyBy keys "
+              "kindOf? last lazyMap map max min new nil? patch prepend reduce repr rindex select std sum tally traverse until values which while withI zip at bear proto".split())
+NOT_STEPS = {"p", "puts", "print", "exit", "assert", "assertEq", "assertRaises", "import", "invite!", "readline", "readlines", "read", "write", "serve", "serveBackground", "eval", "evalEnv", "try", "tap"}
+
+
 def render(v, objs, fixmsg):
     t = v["t"]
     if t == "R":
@@ -84,6 +91,9 @@ def run():
             cls = "steps=" + "+".join(sorted(set(chain)))
         known_class = c["missing"] or c["noncallable"]
         sig = lambda what: f"C13:{cls}" if known_class else f"C13:{what}:{cls}"
+
+        def knownmsg(m):          # the recorded deviation of the missing-property class: the right error type with the message about `call`
+            return "property `call` is not defined." if m.startswith("missing:") else m
         for o in (w, p):
             if pvlib.is_host_crash(o["end"]):
                 ck.reject("C13:host-crash", o["end"], {"chain": steps})
@@ -110,14 +120,16 @@ def run():
         for k, a in enumerate(c["acc"]):
             x = a["x"]
             comparisons += 1
-            if x["r"] == "raise":
-                want, got = f"err:{x['v']['kind']}:{fixmsg(x['v']['msg'])}", w["end"]
-            else:
-                want = "out:" + (render(x["v"], objs, fixmsg) if x["r"] == "val" else
-                                 "[" + render(x["v"], objs, fixmsg) + ", " + render(x["e"], objs, fixmsg) + "]")
-                got = got_acc[k] if k < len(got_acc) else f"<missing; program ended {w['end']}>"
+            def wanted(fm):
+                if x["r"] == "raise":
+                    return f"err:{x['v']['kind']}:{fm(x['v']['msg'])}"
+                return "out:" + (render(x["v"], objs, fm) if x["r"] == "val" else "[" + render(x["v"], objs, fm) + ", " + render(x["e"], objs, fm) + "]")
+            want = wanted(fixmsg)
+            got = w["end"] if x["r"] == "raise" else (got_acc[k] if k < len(got_acc) else f"<missing; program ended {w['end']}>")
             if got != want:
-                ck.reject(sig(a["a"]), f"mk(1).try{steps} then {ACC[a['a']]}: got {got}, the machine gives {want}",
+                # the missing-property class is recorded as: same error type, message about `call`.  Anything else under that class is a new violation
+                beyond = c["missing"] and got != wanted(knownmsg)
+                ck.reject(f"C13:{a['a']}:{cls}:beyond-the-recorded-deviation" if beyond else sig(a["a"]), f"mk(1).try{steps} then {ACC[a['a']]}: got {got}, the machine gives {want}",
                           {"chain": steps, "accessor": a["a"], "observed": got, "expected": want})
     for j, (pre, recv, step) in enumerate(extra):
         a, b = out[f"xw{j}"], out[f"xp{j}"]
@@ -154,6 +166,44 @@ def run():
             ck.reject(f"C13:list-chain:{'+'.join(ch)}", f"{lreqs[2 * k]['src'].splitlines()[-1]!r} gives {last(a)} / {a['end'][:80]}; element by element the chains give {last(b)} / {b['end'][:80]}",
                       {"src": lreqs[2 * k]["src"], "elementwise": lreqs[2 * k + 1]["src"], "observed": [a["events"][-3:], a["end"]], "expected": [b["events"][-3:], b["end"]]})
     ck.cov["list_chain_programs"] = len(chains2)
+    # ---- built-in receivers and the names of their own prototypes as steps (called without arguments): the wrapped step holds what the plain call
+    # gives, value or error.  The wrapper forwards only names it does not answer itself; the names Obj / BaseObj define (Iterable's natives are mixed
+    # into Obj) are answered by the Either - the recorded deviation, frozen here as a list: a name that joins it is a new violation
+    RECV = {"arr": "[3, 1, 2]", "str": '"abc"', "map": "%{'a: 1, 2: 'b}", "range": "(1:4)", "int": "5", "float": "1.5", "obj": "{a: 1, b: 2}"}
+    names_q = run_cases([{"id": k, "src": f"r := {v}; r.ancestors@{{|a| Obj['keys](a)}}$([])+"} for k, v in RECV.items()], label="C13 names of the built-in receivers")
+    breqs, bmeta = [], []
+    for k, v in RECV.items():
+        e = names_q[k]["end"]
+        if not e.startswith('val:["'):
+            raise pvlib.Broken(f"the names of {v} could not be listed: {e[:200]}")
+        for n in sorted(set(json.loads(e[4:])) | {"nosuchname"}):
+            if n in NOT_STEPS or n in EITHER_OWN or not n.replace("?", "").replace("!", "").replace("_", "").isalnum():
+                continue
+            breqs.append({"id": f"bp{len(bmeta)}", "src": f"r := {v}; r.{n}", "fuel": 200000, "deadline_ms": 5000})
+            breqs.append({"id": f"bw{len(bmeta)}", "src": f"r := {v}; r.try.{n}.A", "fuel": 200000, "deadline_ms": 5000})
+            bmeta.append((k, v, n))
+    bout = run_cases(breqs, label="C13 built-in steps")
+    for j, (k, v, n) in enumerate(bmeta):
+        pl, wr = bout[f"bp{j}"], bout[f"bw{j}"]
+        if unfinished(pl, wr):
+            continue
+        comparisons += 1
+        if pl["end"].startswith("val:"):
+            want = "val:[" + pl["end"][4:] + ", nil]"
+        elif pl["end"].startswith("err:") and pl["end"].count(":") >= 2:
+            kind, msg = pl["end"].split(":", 2)[1:]
+            want = f"val:[nil, <err {kind}: {msg}>]"
+            if n == "nosuchname":           # the recorded missing-property deviation: right type, message about `call`
+                if wr["end"] == "val:[nil, <err NoPropErr: property `call` is not defined.>]":
+                    ck.reject("C13:step=prop-missing", f"{v}.try.{n}.A", {})
+                    continue
+        else:
+            continue
+        if wr["end"] != want or wr["events"] != pl["events"]:
+            ck.reject("C13:step=name-answered-by-the-wrapper" if n in OBJ_OWN else f"C13:builtin-step:{n}",
+                      f"{v}.try.{n}.A gives {wr['end'][:160]} but the plain call {v}.{n} gives {pl['end'][:120]}",
+                      {"src": breqs[2 * j + 1]["src"], "plain": breqs[2 * j]["src"], "observed": wr["end"], "expected": want})
+    ck.cov["builtin_step_programs"] = len(bmeta)
     ck.cov["evaluations"] = comparisons
     ck.cov["distinct_nontrivial"] = nontrivial
     ck.cov["traces_validated_against_impl"] = 2 * len(cases)
@@ -161,6 +211,7 @@ def run():
     ck.cov["rule"] = ("every chain of <= MaxSteps (2 quick, 4 thorough) steps over {method returning a value / nil / raising Err, ZeroDivisionErr, NameErr; method "
                       "with positional+keyword arguments (two keyword values and the default); method returning an Either (holding a value / an error); non-callable property; literal step returning a value / raising / returning a caught error object}; "
                       "per chain: plain run, wrapped run, calls made, and 10 accessor forms (val err A or val? err? catch(match/no match) ignore abandon); "
+                      "built-in receivers (arr, str, map, range, int, float, obj) x every name of their prototypes as a step without arguments, wrapped vs plain; "
                       "non-trivial = chains with a failure")
     ck.assumptions = ["receiver objects are rendered through the interpreter itself (mk(n)) for comparison of values"]
     return ck.finish()
